@@ -31,8 +31,6 @@ import ast
 import builtins
 import os
 import pprint as _pprint
-import re
-
 from .. import core
 from ..core import cz, cbool
 from ..runner import Entry, differential
@@ -225,8 +223,8 @@ def reorder_chunk(r, ch, fields2):
     return {"dtype": fields2, "rows": rows_of(a.astype(np_dtype_of(fields2)))}
 
 
-INCOMPAT = ["extra-field", "dropped-field", "renamed-field", "other-type", "other-size", "other-shape", "shape-vs-scalar",
-            "reordered-fields", "other-byte-order"]
+INCOMPAT = ["extra-field", "dropped-field", "renamed-field", "other-type", "other-size", "other-shape", "other-shape-same-rank",
+            "other-shape-other-rank", "shape-vs-scalar", "reordered-fields", "other-byte-order", "renamed-last-field", "other-type-last-field", "renamed-case-only"]
 
 
 def incompatible(r, fields, kind, textual):
@@ -237,6 +235,30 @@ def incompatible(r, fields, kind, textual):
         return f + [["zz", "<i2", []]]
     if kind == "dropped-field":
         return f[:-1] if len(f) >= 2 else None
+    if kind in ("renamed-last-field", "other-type-last-field"):
+        i = len(f) - 1
+        kind = kind.replace("-last", "")
+    shaped = [j for j in range(len(f)) if f[j][2]]
+    if kind == "other-shape-same-rank":
+        if not shaped:
+            return None
+        i = r.choice(shaped)
+        k = r.randrange(len(f[i][2]))
+        f[i][2][k] += 1
+        return f
+    if kind == "other-shape-other-rank":
+        if not shaped:
+            return None
+        i = r.choice(shaped)
+        f[i][2] = f[i][2] + [2] if r.random() < 0.5 else ([1] + f[i][2])
+        return f
+    if kind == "renamed-case-only":
+        cand = [j for j in range(len(f)) if f[j][0].swapcase() != f[j][0] and f[j][0].swapcase() not in [x[0] for x in f]]
+        if not cand:
+            return None
+        i = r.choice(cand)
+        f[i][0] = f[i][0].swapcase()
+        return f
     if kind == "renamed-field":
         f[i][0] = f[i][0] + "2"
         return f
@@ -392,7 +414,7 @@ def adversarial(r, textual, dl):
     for kind in INCOMPAT:
         b = B()
         f2 = incompatible(r, b.fields, kind, textual)
-        for _ in range(8):
+        for _ in range(60):
             if f2 is not None:
                 break
             b = B()
@@ -634,7 +656,7 @@ class History(Entry):
         if round == 0:
             for dl in DELIMS:
                 cs += adversarial(r, dl is not None, dl)
-        n = ctx.n(200, 3000) if round == 0 else ctx.n(60, 300)
+        n = ctx.n(120, 3000) if round == 0 else ctx.n(60, 300)
         maxops = ctx.n(8, 40)
         for i in range(n):
             cs.append(random_history(r, maxops if (ctx.quick() or i % 10) else 40))
@@ -773,33 +795,30 @@ class History(Entry):
 # constants of the source against constants of the model (fail-closed)
 # ----------------------------------------------------------------------------------------------
 
-def extract_constants(impl_root):
-    cpp = open(os.path.join(impl_root, "esutil", "recfile", "records.cpp")).read()
-    m = re.search(r"PyObject\*\s+Records::update_row_count\(long nrows\)\s*\{(.*?)\n\}", cpp, re.S)
-    if not m:
-        raise ValueError("records.cpp: update_row_count not found")
-    body = m.group(1)
-    fm = re.findall(r'fprintf\(\s*mFptr\s*,\s*"((?:[^"\\]|\\.)*)"\s*,\s*nrows\s*\)', body)
-    if len(fm) != 1:
-        raise ValueError("records.cpp: update_row_count: the fprintf of the SIZE line not found")
-    fmt = fm[0].encode().decode("unicode_escape")
-    pyfmt = re.sub(r"%(\d*)l+d", r"%\1d", fmt)
-    if not re.search(r"rewind\(\s*mFptr\s*\)", body) or not re.search(r"fseek\(\s*mFptr\s*,\s*0\s*,\s*SEEK_END\s*\)", body):
-        raise ValueError("records.cpp: update_row_count: rewind / seek-to-end not found")
-    w = re.search(r"PyObject\*\s+Records::Write\(PyObject\* obj\)\s*\{(.*?)\n\}", cpp, re.S)
-    if not w or not re.search(r"fseek\(\s*mFptr\s*,\s*0\s*,\s*SEEK_END\s*\)", w.group(1)):
-        raise ValueError("records.cpp: Write: seek-to-end not found")
-    return {"fmt": fmt, "pyfmt": pyfmt}
-
-
 def source_tie(ctx):
+    from . import c03_translate
     try:
-        k = extract_constants(ctx.impl)
+        k = c03_translate.extract(ctx.impl)
     except Exception as e:  # noqa
-        ctx.obligation("source constants extracted (records.cpp regex)", False, str(e))
-        ctx.violation("tie to the source broken: constants of records.cpp could not be extracted (%s)" % str(e)[:200],
-                      {"kind": "source-tie", "error": str(e), "no_longer_checks": "C03 model constants = source constants"}, found_input=False)
+        ctx.obligation("source facts extracted (sfile.py ast, records.cpp regex)", False, str(e))
+        ctx.violation("tie to the source broken: the facts the model relies on could not be extracted from sfile.py / records.cpp (%s)" % str(e)[:200],
+                      {"kind": "source-tie", "error": str(e), "no_longer_checks": "C03 model shape/constants = source"}, found_input=False)
         return
+    structural = []
+    for nm, pred in c03_translate.EXPECTED:
+        try:
+            ok = bool(pred(k))
+        except Exception:  # noqa
+            ok = False
+        ctx.obligation("source tie: " + nm, ok)
+        if not ok:
+            structural.append(nm)
+    ctx.count("source_tie_structural_facts", len(c03_translate.EXPECTED))
+    if structural:
+        ctx.violation("tie to the source broken: the source no longer has the shape the model describes: %s" % "; ".join(structural)[:400],
+                      {"kind": "source-tie", "facts": {kk: vv for kk, vv in k.items()}, "mismatch": structural,
+                       "no_longer_checks": "C03 Model.v mirrors sfile.py / records.cpp (mode selection, order of calls, placement of the raise, "
+                                           "row-count update, seek/flush in Write)"}, found_input=False)
     ns = [1, 9, 10, 12345, 10 ** 18, 2 ** 63 - 1]
     terms, names = [], []
     for n in ns:
